@@ -34,9 +34,14 @@ def rand_ops(rng, tri_cells, n):
                    | {c.period_end for c in tri_cells})
     fields = sorted({k for c in tri_cells for k in c.values})
     for _ in range(n):
-        k = rng.choice(["slice", "add", "clip", "filterMask", "select", "deriveMetadata",
-                        "replaceEval", "rightEdge"])
-        if k == "slice":
+        k = rng.choice(["slice", "sliceStep", "removeStaticDetails", "add", "clip", "filterMask", "select",
+                        "deriveMetadata", "replaceEval", "rightEdge"])
+        if k == "sliceStep":
+            ops.append({"op": "sliceStep", "i": rng.choice([None, None, 0, 2, -1, -2, 7]),
+                        "j": rng.choice([None, None, 0, 1, -1, -4, 9]), "k": rng.choice([-1, -1, -2, 2, 3, -3])})
+        elif k == "removeStaticDetails":
+            ops.append({"op": "removeStaticDetails"})
+        elif k == "slice":
             ops.append({"op": "slice", "i": rng.choice([None, 0, 1, 2, -1, -3, 5]),
                         "j": rng.choice([None, 1, 3, -1, -2, 8, 100])})
         elif k == "add":
@@ -77,6 +82,10 @@ def apply_op(t, op):
     k = op["op"]
     if k == "slice":
         return t[op["i"]:op["j"]]
+    if k == "sliceStep":
+        return t[op["i"]:op["j"]:op["k"]]
+    if k == "removeStaticDetails":
+        return t.remove_static_details()
     if k == "add":
         return t + Triangle(op["other"])
     if k == "clip":
@@ -121,6 +130,45 @@ def op_wire(op):
     return {kk: vv for kk, vv in op.items() if kk not in ("p", "seed")}
 
 
+def _other_like(t, rng):
+    """a second triangle with the same slices/class, overlapping coordinates, other fields"""
+    cells = [c.replace(values={"x_" + k: v for k, v in c.values.items()}) for c in t.cells if rng.random() < 0.7]
+    return Triangle(cells)
+
+
+def _first_meta_keys(t):
+    return sorted({k for c in t.cells for k in c.metadata.details})
+
+
+PUBLIC_OPS = [
+    ("to_incremental", lambda t, r: t.to_incremental()),
+    ("to_cumulative", lambda t, r: t.to_cumulative()),
+    ("aggregate_period", lambda t, r: t.aggregate(period_resolution=(r.choice([3, 6, 12]), "month"))),
+    ("aggregate_eval", lambda t, r: t.aggregate(eval_resolution=(r.choice([3, 6, 12]), "month"))),
+    ("summarize", lambda t, r: t.summarize()),
+    ("merge", lambda t, r: t.merge(_other_like(t, r))),
+    ("coalesce", lambda t, r: t.coalesce([_other_like(t, r)])),
+    ("make_right_triangle", lambda t, r: t.make_right_triangle()),
+    ("make_right_diagonal", lambda t, r: t.make_right_diagonal([max(t.evaluation_dates).replace(year=max(t.evaluation_dates).year + 1)])),
+    ("plus_right_triangle", lambda t, r: t + t.make_right_triangle()),
+    ("derive_fields", lambda t, r: t.derive_fields(z=lambda c: 1)),
+    ("derive_metadata_fn", lambda t, r: t.derive_metadata(country=lambda c: "Z" if c.period_start.month % 2 else "A")),
+    ("derive_details_fn", lambda t, r: t.derive_metadata(grp=lambda c: c.evaluation_date.year % 2)),
+    ("replace_period_end", lambda t, r: t.replace(period_end=lambda c: c.period_end + datetime.timedelta(days=r.choice([0, 1, 40])))),
+    ("remove_static_details", lambda t, r: t.remove_static_details()),
+    ("right_edge", lambda t, r: t.right_edge),
+    ("clip_dev", lambda t, r: t.clip(min_dev=r.choice([0, 3, 6]), max_dev=r.choice([12, 24, 60]))),
+    ("slice_neg", lambda t, r: t[::r.choice([-1, -2])]),
+    ("getitem3", lambda t, r: t[t.periods[0][0]:, :, :]),
+    ("add_statics", lambda t, r: t.add_statics(t.right_edge, ["earned_premium"])),
+    ("split_first", lambda t, r: list(t.split(_first_meta_keys(t)[:1]).values())[0] if _first_meta_keys(t) else t),
+    ("slices_sum", lambda t, r: sum(list(t.slices.values())[::-1])),
+    ("fill_forward_gaps", lambda t, r: __import__("bermuda").utils.fill_forward_gaps(t)),
+    ("backfill", lambda t, r: __import__("bermuda").utils.backfill(t)),
+    ("json_roundtrip", lambda t, r: Triangle.from_dict(t.to_dict())),
+]
+
+
 def correspondence(ctx):
     rng = ctx.rng
     drv = common.Driver("drv_c01")
@@ -138,9 +186,13 @@ def correspondence(ctx):
             # duplicate coordinates with different values: ties keep input order (model only)
             c = rng.choice(cells)
             cells.append(c.replace(values={**c.values, "dup": 1}))
-        if rng.random() < 0.04:
-            # mixed classes must be refused
+        if rng.random() < 0.06:
+            # mixed classes must be refused — wherever the odd cell sorts, also after duplicates
             other = gen.rand_cells(rng, n_slices=1, kind={"C": "U", "U": "I", "I": "C"}[common.w_kind(cells[0])], max_cells=2)
+            if rng.random() < 0.5:
+                c0 = min(cells)
+                cells.append(c0.replace(values={**c0.values, "dup": 2}))
+                dup = True
             cells = cells + other
         desc = gen.describe(cells)
         ctx.count(f"construct/slices={desc.get('slices')}")
@@ -239,7 +291,37 @@ def correspondence(ctx):
         ctx.case(digest=json.dumps([canon(w_cells(cells)), wire_ops], sort_keys=True),
                  sample={"op": "chain", "ops": [o["op"] for o in wire_ops], "n_cells": len(cells)} if i < 2 else None)
 
-    outs = drv.run(reqs)
+    # (iv) canonical form after ANY public operation (Spec on the implementation's output; no model)
+    n_model_reqs = len(reqs)
+    spec_cases = []
+    n_spec = 900 if ctx.thorough else 160
+    for i in range(n_spec):
+        cells = gen.rand_cells(rng, max_cells=18, layout=rng.choice(["regular", "regular", "ragged"]),
+                               vkind=rng.choice(["int", "float", "farr"]), single_attr=rng.random() < 0.5,
+                               fields=["paid_loss", "reported_loss", "earned_premium"])
+        st, t = call(Triangle, cells)
+        if st != "ok":
+            continue
+        names = []
+        for _ in range(rng.randrange(1, 4)):
+            name, fn = rng.choice(PUBLIC_OPS)
+            st, r = call(fn, t, rng)
+            if st != "ok" or not isinstance(r, Triangle):
+                ctx.count(f"anyop/{name}/err")
+                continue
+            names.append(name)
+            ctx.count(f"anyop/{name}")
+            t = r
+            reqs.append({"op": "spec", "impl": w_cells(t.cells)})
+            spec_cases.append((list(names), w_cells(cells)))
+        ctx.case(digest=json.dumps([canon(w_cells(cells)), names], sort_keys=True), nontrivial=bool(names))
+
+    outs_all = drv.run(reqs)
+    outs = outs_all[:n_model_reqs]
+    for (names, wc), out in zip(spec_cases, outs_all[n_model_reqs:]):
+        spec = out["spec"]
+        if spec is not None and not all(spec.values()):
+            ctx.fail(f"result of public operation(s) {names} is not canonical {spec}", {"cells": wc, "ops": names})
 
     for (tag, i, pi, kind, d, dup), req, out in zip(metas_, reqs[:n_construct], outs[:n_construct]):
         model = out["model"]
